@@ -84,9 +84,16 @@ func hqSpecOf(in string) (string, bool) {
 	spec := QSpec{
 		BSize: atoiDef(h.kv["b"], 2), Workers: atoiDef(h.kv["w"], 1), Items: h.items, Steps: h.steps,
 		AddF: h.kv["addf"], DelF: h.kv["delf"], GetF: h.kv["getf"], Consume: h.kv["c"] == "1", Fin: h.kv["fin"],
-		Dir: "@DIR@", WaitMs: atoiDef(h.kv["wait"], 60000),
+		Dir: "@DIR@", WaitMs: atoiDef(h.kv["wait"], 25000),
 	}
 	if h.kv["wait"] == "" {
+		// watchdog for "not delivered": two timer periods for the producer and two for the finisher,
+		// plus what the generated faults and forced timer flushes can cost; generous under load
+		for _, st := range spec.Steps {
+			if st == "W" || st == "X" {
+				spec.WaitMs += 6000
+			}
+		}
 		// every failed request costs its retry sleep (<= 5 s), a stall the client's 5 s timeout as well
 		for _, f := range spec.AddF + spec.DelF + spec.GetF {
 			if f != 'O' {
